@@ -355,11 +355,40 @@ def run(rep):
         raise AnalysisError("plot/violinplot.py: _compute: no completing path")
     vp = vp[-1]
     attrs = {e.target: e.val for e in vp.effects if e.kind == 'attr'}
-    D = "self._data"
+    DV = pq.parse("self._data")
     CC, CE = "compute_percentiles(COVERAGE_CENTER)", "compute_percentiles(COVERAGE_EXTREMES)"
-    wantq = {"self.stat_median": f"({D}).median()", "self.stat_center_low": f"({D}).quantile({CC}[0]/100)", "self.stat_center_high": f"({D}).quantile({CC}[1]/100)",
-             "self.stat_extremes_low": f"({D}).quantile({CE}[0]/100)", "self.stat_extremes_high": f"({D}).quantile({CE}[1]/100)"}
-    okq = all(k_ in attrs and pq.same(attrs[k_], w) for k_, w in wantq.items())
+
+    def finite_view(x):
+        """x is the data with every non-finite entry turned into a missing one: D.where(isfinite(D)), D[isfinite(D)], D.mask(~isfinite(D)),
+        D.mask(isinf(D)), D.replace([inf, -inf], nan)"""
+        if pq.call_named(x, ".where") and len(x[2]) == 2 and len(x) == 3 and pq.same(x[2][0], DV):
+            return pq.same(x[2][1], ('call', 'isfinite', (DV,)))
+        if pq.call_named(x, "getitem") and len(x[2]) == 2 and pq.same(x[2][0], DV):
+            return pq.same(x[2][1], ('call', 'isfinite', (DV,)))
+        if pq.call_named(x, ".mask") and len(x[2]) == 2 and len(x) == 3 and pq.same(x[2][0], DV):
+            return pq.same(x[2][1], ('not', ('call', 'isfinite', (DV,)))) or pq.same(x[2][1], ('call', 'isinf', (DV,)))
+        if pq.call_named(x, ".replace") and len(x[2]) == 3 and len(x) == 3 and pq.same(x[2][0], DV):
+            vals = x[2][1][1] if x[2][1][0] == 'tuple' else ()
+            return {show(v_) for v_ in vals} == {show(pq.parse("np.inf")), show(pq.parse("-np.inf"))} and x[2][2] == ('nan',)
+        return False
+    meds = attrs.get("self.stat_median")
+    src = meds[2][0] if meds is not None and pq.call_named(meds, ".median") and len(meds[2]) == 1 else None
+    cons_f = "summary statistics are computed on the finite values of each column (non-finite entries masked before median / quantile)"
+    if src is None:
+        rep.undecided("R20.d", "plot/violinplot.py", "_compute", cons_f, f"stat_median is not <data>.median(): {show(meds)[:80] if meds else None}", line=vc.lineno)
+        src = DV
+    elif pq.same(src, DV):
+        rep.violation("R20.d", "plot/violinplot.py", "_compute", cons_f,
+                      "median and quantiles read self._data unfiltered: pandas skips NaN but not +-inf, so a column holding an infinite value gets a shifted "
+                      "median and NaN quantiles (inf - inf in the interpolation)", line=vc.lineno, firm=True)
+    elif finite_view(src):
+        rep.proved("R20.d", "plot/violinplot.py", "_compute", cons_f, line=vc.lineno)
+    else:
+        rep.undecided("R20.d", "plot/violinplot.py", "_compute", cons_f, f"source of the statistics not recognised: {show(src)[:120]}", line=vc.lineno)
+    env_ = {"FD": src}
+    wantq = {"self.stat_median": "FD.median()", "self.stat_center_low": f"FD.quantile({CC}[0]/100)", "self.stat_center_high": f"FD.quantile({CC}[1]/100)",
+             "self.stat_extremes_low": f"FD.quantile({CE}[0]/100)", "self.stat_extremes_high": f"FD.quantile({CE}[1]/100)"}
+    okq = all(k_ in attrs and pq.same(attrs[k_], pq.parse(w, env_)) for k_, w in wantq.items())
     rep.check(okq, "R20.d", "plot/violinplot.py", "_compute", "median and quantiles at the levels implied by the centre / extremes coverages",
               str({k_: show(attrs.get(k_, num(0)))[:50] for k_ in wantq})[:300], line=vc.lineno)
     # inside the column loop: kde_y.loc[:, col] <- (y - y.min())/(y.max() - y.min()) with y = kernel(x), kernel = gaussian_kde(finite values)
@@ -379,6 +408,39 @@ def run(rep):
         okn, okk = okn and ok1, okk and ok2
     rep.check(okn, "R20.d", "plot/violinplot.py", "_compute", "density profile min-max normalised to [0, 1]", show(ys[0].val)[:120] if ys else "", line=vc.lineno)
     rep.check(okk, "R20.d", "plot/violinplot.py", "_compute", "KDE fitted on the finite values of the column", "", line=vc.lineno)
+    # the abscissa the kernel is evaluated on: every data value it is built from is read through the finite-value selection (an infinite
+    # bound makes the grid, hence the whole profile, NaN)
+
+    def raw_reads(e, acc):
+        if not isinstance(e, tuple) or not e or not isinstance(e[0], str):
+            return acc
+        if pq.call_named(e, "getitem") and len(e[2]) == 2:
+            if pq.mentions(e[2][1], lambda x: pq.call_named(x, "isfinite")):
+                return acc                                   # selection by a mask that requires finiteness
+            k_ = e[2][1]
+            if pq.call_named(k_, "getitem") and pq.call_named(k_[2][0], "elem") and k_[2][1] == num(0):
+                return raw_reads(e[2][0], acc)               # indexed by the column label
+        if pq.call_named(e, "attr:_data") or pq.call_named(e, "attr:data"):
+            acc.append(e)
+            return acc
+        for x in e[1:]:
+            if isinstance(x, tuple):
+                if x and isinstance(x[0], str):
+                    raw_reads(x, acc)
+                else:
+                    for y_ in x:
+                        if isinstance(y_, tuple):
+                            raw_reads(y_ if y_ and isinstance(y_[0], str) else (y_[1] if len(y_) == 2 and isinstance(y_[1], tuple) else ()), acc)
+        return acc
+    nx = 0
+    for e_ in ys:
+        for ap in pq.find(e_.val, lambda x: pq.call_named(x, "apply") and len(x[2]) == 2):
+            nx += 1
+            rr = raw_reads(ap[2][1], [])
+            rep.check(not rr, "R20.d", "plot/violinplot.py", "_compute", "the points the density is evaluated at are built from the finite values only",
+                      f"the abscissa reads the unfiltered data ({show(ap[2][1])[:140]}): a column holding +-inf gives an infinite grid bound and a NaN profile", line=e_.line, firm=True)
+            break
+    rep.floor("KDE evaluation sites", nx, 1)
     return EXPLANATION
 
 
